@@ -234,6 +234,25 @@ func NewSandbox(parent string, toks *Tokens, nm *NameMap) (*Sandbox, error) {
 	return sb, nil
 }
 
+// RootSpelling returns the served directory as an operator might configure it: 0 clean, 1 trailing slash, 2 "/." suffix,
+// 3 doubled separator, 4 dot-dot detour, 5 "./" inside. All name the same directory.
+func (sb *Sandbox) RootSpelling(style int) string {
+	dir, base := filepath.Dir(sb.Root), filepath.Base(sb.Root)
+	switch style % 6 {
+	case 1:
+		return sb.Root + "/"
+	case 2:
+		return sb.Root + "/."
+	case 3:
+		return dir + "//" + base
+	case 4:
+		return dir + "/root2/../" + base
+	case 5:
+		return dir + "/./" + base + "//"
+	}
+	return sb.Root
+}
+
 func (sb *Sandbox) srvDir() string {
 	parts := []string{sb.Base}
 	for i := 0; i < padLevels; i++ {
